@@ -25,7 +25,7 @@ pub fn admission_table() -> Vec<(&'static str, Vec<Family>)> {
         ("missing-rng-open", vec![Ipa, Hyrax]),
         ("wrong-num-vars-setup", vec![Hyrax, Pst13, Mlpc]),
         ("wrong-num-vars-commit", vec![Hyrax, Brakedown, Mlpc]),
-        ("wrong-num-vars-open", vec![Hyrax]),
+        ("wrong-num-vars-open", vec![Hyrax, MLigero, Brakedown]),
         ("mismatched-labels", vec![Ipa, Hyrax]),
         ("unknown-polynomial-open", vec![Marlin, Sonic, Ipa, Pst13, Hyrax, ULigero, MLigero, Brakedown, Kzg10, Mlpc]),
         ("unknown-polynomial-check", vec![Marlin, Sonic, Ipa, Pst13, Hyrax, ULigero, MLigero, Brakedown, Kzg10, Mlpc]),
